@@ -478,6 +478,68 @@ func main() {
 			e.Bool("csNormalizesInvalid", norm, "toLowerIfCaseInsensitive: the case-sensitive branch replaces invalid UTF-8 (same fact as C11's)")
 		}
 
+		// ---- ID layout: seq.NewID, IngestorMaxInstances
+		if sf, err := r.Load("seq/seq.go"); err != nil {
+			e.Missing("newIDBody", err)
+		} else if fd := sf.Func("", "NewID"); fd == nil {
+			e.Missing("newIDBody", "seq.NewID not found")
+		} else {
+			var evs []string
+			for _, st := range fd.Body.List {
+				evs = append(evs, sf.Render(st))
+			}
+			e.Strs("newIDBody", evs, "seq.NewID: its statements")
+		}
+		if v, err := r.ConstInt("consts", "IngestorMaxInstances"); err != nil {
+			e.Missing("ingestorMaxInstances", err)
+		} else {
+			e.Nat("ingestorMaxInstances", uint64(v), "consts.IngestorMaxInstances")
+		}
+		// ---- lifetime of the pooled compressor whose buffers are handed to the storage client
+		if cf, err := r.Load("proxy/bulk/ingestor.go"); err != nil {
+			e.Missing("compressorLifetime", err)
+		} else {
+			var life, outside []string
+			for _, d := range cf.AST.Decls {
+				fd, ok := d.(*ast.FuncDecl)
+				if !ok || fd.Body == nil {
+					continue
+				}
+				inPD := fd.Name.Name == "ProcessDocuments"
+				ast.Inspect(fd.Body, func(n ast.Node) bool {
+					var txt string
+					switch x := n.(type) {
+					case *ast.AssignStmt:
+						t := cf.Render(x)
+						if strings.Contains(t, "GetDocsMetasCompressor") || strings.Contains(t, ".DocsMetas()") || strings.Contains(t, "frac.CompressDocsAndMetas") {
+							txt = t
+						}
+					case *ast.DeferStmt:
+						if strings.Contains(cf.Render(x), "PutDocMetasCompressor") {
+							txt = cf.Render(x)
+						}
+					case *ast.ExprStmt:
+						if strings.Contains(cf.Render(x), "PutDocMetasCompressor") {
+							txt = cf.Render(x)
+						}
+					case *ast.CallExpr:
+						if strings.HasSuffix(cf.Render(x.Fun), ".StoreDocuments") {
+							txt = cf.Render(x)
+						}
+					}
+					if txt != "" {
+						if inPD {
+							life = append(life, txt)
+						} else {
+							outside = append(outside, fd.Name.Name+": "+txt)
+						}
+					}
+					return true
+				})
+			}
+			e.Strs("compressorLifetime", life, "Ingestor.ProcessDocuments: acquisition and release of the pooled compressor, where the blocks come from, the store call")
+			e.Strs("compressorPoolUsesOutsideProcessDocuments", outside, "the same in every other function of ingestor.go")
+		}
 		// ---- single-binary glue: what the in-memory client hands to the store
 		if gf, err := r.Load("storeapi/client.go"); err != nil {
 			e.Missing("inMemoryBulk", err)
